@@ -1730,7 +1730,8 @@ def gen_cases(ctx):
             yield ({"op": "source", "first": {"k": "seq", "els": [s]}, "els": [store], "cuts": [0, 1, 2]})
     yield ({"op": "source0"})
     # objects that are not elements, as arguments of a Sequence: None, a list, a single tuple of elements (the docstring
-    # of Sequence.__init__ mentions it; the code rejects it like any other tuple), Run(None, run=5), a class object
+    # of Sequence.__init__ mentions it; the code rejects it like any other tuple), Run(None, run=5) (itself rejected by
+    # Run.__init__ since /repo 0ff1b62), a class object
     for s in ({"k": "junk"}, {"k": "iter", "flow": [1, 2]}, {"k": "iter", "flow": [1, 2], "tuple": True},
               {"k": "runnonebad"}, {"k": "classobj"}, {"k": "both", "cflow": [1], "iflow": [2]}):
         yield ({"op": "regroup", "els": [s], "flow": [1, 2], "term": None, "brks": [[0], [[0]]]})
